@@ -1,5 +1,6 @@
 import PytezosModel.Proofs.InterpTyping
 import PytezosModel.Proofs.InterpStep
+import PytezosModel.Proofs.InterpColl
 /-! Type soundness of the reference semantics of the modelled core (C02): rules without sub-programs. -/
 namespace Interp
 open Typing
@@ -319,6 +320,219 @@ theorem sound_MUL (hev : Spec.step env .MUL st = .ok st') :
 end
 end Interp
 
+-- sets and maps -------------------------------------------------------------------------------------
+namespace Interp
+open Typing
+
+section
+variable {κ ν : Type} (lt : κ → κ → Bool)
+
+theorem mem_eraseKey' {x z : κ} : ∀ {l : List κ}, z ∈ _root_.Spec.Coll.eraseKey lt x l → z ∈ l
+  | [], h => by simp [_root_.Spec.Coll.eraseKey] at h
+  | e :: es, h => by
+    simp only [_root_.Spec.Coll.eraseKey] at h
+    split at h
+    · simp only [List.mem_cons] at h ⊢
+      rcases h with h | h
+      · exact Or.inl h
+      · exact Or.inr (mem_eraseKey' h)
+    · split at h
+      · exact h
+      · exact List.mem_cons_of_mem _ h
+
+theorem mem_insertKey' {x z : κ} : ∀ {l : List κ}, z ∈ _root_.Spec.Coll.insertKey lt x l → z = x ∨ z ∈ l
+  | [], h => by simp [_root_.Spec.Coll.insertKey] at h; exact Or.inl h
+  | e :: es, h => by
+    simp only [_root_.Spec.Coll.insertKey] at h
+    split at h
+    · simp only [List.mem_cons] at h ⊢
+      exact h
+    · split at h
+      · simp only [List.mem_cons] at h ⊢
+        rcases h with h | h
+        · exact Or.inr (Or.inl h)
+        · rcases mem_insertKey' h with h | h
+          · exact Or.inl h
+          · exact Or.inr (Or.inr h)
+      · exact Or.inr h
+
+theorem mem_eraseKV' {x : κ} {z : κ × ν} : ∀ {m : List (κ × ν)}, z ∈ _root_.Spec.Coll.eraseKV lt x m → z ∈ m
+  | [], h => by simp [_root_.Spec.Coll.eraseKV] at h
+  | e :: es, h => by
+    simp only [_root_.Spec.Coll.eraseKV] at h
+    split at h
+    · simp only [List.mem_cons] at h ⊢
+      rcases h with h | h
+      · exact Or.inl h
+      · exact Or.inr (mem_eraseKV' h)
+    · split at h
+      · exact h
+      · exact List.mem_cons_of_mem _ h
+
+/-- a binding of the updated map is the new one, an old one, or an old key with the new value -/
+theorem mem_insertKV' {x : κ} {y : ν} {z : κ × ν} : ∀ {m : List (κ × ν)}, z ∈ _root_.Spec.Coll.insertKV lt x y m →
+    z = (x, y) ∨ z ∈ m ∨ ∃ e ∈ m, z = (e.1, y)
+  | [], h => by simp [_root_.Spec.Coll.insertKV] at h; exact Or.inl h
+  | e :: es, h => by
+    simp only [_root_.Spec.Coll.insertKV] at h
+    split at h
+    · simp only [List.mem_cons] at h
+      rcases h with h | h | h
+      · exact Or.inl h
+      · exact Or.inr (Or.inl (by simp [h]))
+      · exact Or.inr (Or.inl (by simp [h]))
+    · split at h
+      · simp only [List.mem_cons] at h
+        rcases h with h | h
+        · exact Or.inr (Or.inl (by simp [h]))
+        · rcases mem_insertKV' h with h | h | ⟨e', he', h⟩
+          · exact Or.inl h
+          · exact Or.inr (Or.inl (List.mem_cons_of_mem _ h))
+          · exact Or.inr (Or.inr ⟨e', List.mem_cons_of_mem _ he', h⟩)
+      · simp only [List.mem_cons] at h
+        rcases h with h | h
+        · exact Or.inr (Or.inr ⟨e, by simp, h⟩)
+        · exact Or.inr (Or.inl (List.mem_cons_of_mem _ h))
+
+theorem findKV_mem {x : κ} {y : ν} : ∀ {m : List (κ × ν)}, _root_.Spec.Coll.findKV lt x m = some y → ∃ e ∈ m, e.2 = y
+  | [], h => by simp [_root_.Spec.Coll.findKV] at h
+  | e :: es, h => by
+    simp only [_root_.Spec.Coll.findKV] at h
+    split at h
+    · obtain ⟨e', he', h'⟩ := findKV_mem h
+      exact ⟨e', List.mem_cons_of_mem _ he', h'⟩
+    · split at h
+      · cases h
+      · simp only [Option.some.injEq] at h
+        exact ⟨e, by simp, h⟩
+
+end
+
+/-- the bindings of a well-typed, well-formed map, as tuples -/
+theorem kvs_typed {k v : Ty} {items : List Val} (hw : AllTy items (.pair k v)) :
+    ∀ e ∈ Spec.kvs items, (WF e.1 ∧ typeOf e.1 = k) ∧ (WF e.2 ∧ typeOf e.2 = v) := by
+  intro e he
+  rw [kvs_eq, List.mem_map] at he
+  obtain ⟨e', he', rfl⟩ := he
+  have := (allTy_iff.mp hw) e' he'
+  obtain ⟨a, b, rfl, ha, hb⟩ := hasTy_pair (hasTy_iff.mpr this)
+  exact ⟨hasTy_iff.mp ha, hasTy_iff.mp hb⟩
+
+theorem unkvs_typed {k v : Ty} {m : List (Val × Val)}
+    (h : ∀ e ∈ m, (WF e.1 ∧ typeOf e.1 = k) ∧ (WF e.2 ∧ typeOf e.2 = v)) : AllTy (Spec.unkvs m) (.pair k v) := by
+  rw [allTy_iff]
+  intro z hz
+  rw [unkvs_eq, List.mem_map] at hz
+  obtain ⟨e, he, rfl⟩ := hz
+  obtain ⟨⟨a1, a2⟩, ⟨b1, b2⟩⟩ := h e he
+  simp [Impl.ofKV, typeOf, a1, a2, b1, b2]
+
+theorem memV_sound (a b r : Val) (hwa : WF a) (hwb : WF b) (h : Spec.memV a b = .ok r) :
+    WF r ∧ memTy (typeOf a) (typeOf b) = some (typeOf r) := by
+  cases b <;> first | (simp [Spec.memV] at h; done) | skip
+  · rename_i k v items
+    simp only [Spec.memV] at h
+    split at h
+    · rename_i hc
+      simp only [Bool.and_eq_true] at hc
+      simp only [Res.ok.injEq] at h; subst h
+      simp [typeOf, memTy, isKey_typeOf hc.2, isKey_simple hc.2]
+    · cases h
+  · rename_i t xs
+    simp only [Spec.memV] at h
+    split at h
+    · rename_i hc
+      simp only [Bool.and_eq_true] at hc
+      simp only [Res.ok.injEq] at h; subst h
+      simp [typeOf, memTy, isKey_typeOf hc.2, isKey_simple hc.2]
+    · cases h
+
+theorem getV_sound (a b r : Val) (hwa : WF a) (hwb : WF b) (h : Spec.getV a b = .ok r) :
+    WF r ∧ getTy (typeOf a) (typeOf b) = some (typeOf r) := by
+  cases b <;> first | (simp [Spec.getV] at h; done) | skip
+  rename_i k v items
+  simp only [Spec.getV] at h
+  split at h
+  · rename_i hc
+    simp only [Bool.and_eq_true] at hc
+    simp only [Res.ok.injEq] at h; subst h
+    rw [wf_map] at hwb
+    have hty := kvs_typed hwb
+    cases hf : _root_.Spec.Coll.findKV keyLt a (Spec.kvs items) with
+    | none => simp [typeOf, getTy, isKey_typeOf hc.2, isKey_simple hc.2]
+    | some y =>
+      obtain ⟨e, he, rfl⟩ := findKV_mem keyLt hf
+      obtain ⟨_, ⟨b1, b2⟩⟩ := hty e he
+      simp [typeOf, getTy, isKey_typeOf hc.2, isKey_simple hc.2, b1, b2]
+  · cases h
+
+theorem updateV_sound (a b c r : Val) (hwa : WF a) (hwb : WF b) (hwc : WF c) (h : Spec.updateV a b c = .ok r) :
+    WF r ∧ updateTy (typeOf a) (typeOf b) (typeOf c) = some (typeOf r) := by
+  cases b <;> first | (cases c <;> simp [Spec.updateV] at h; done) | skip
+  · -- bool
+    rename_i bb
+    cases c <;> first | (simp [Spec.updateV] at h; done) | skip
+    rename_i t xs
+    simp only [Spec.updateV] at h
+    split at h
+    · rename_i hc
+      simp only [Bool.and_eq_true] at hc
+      simp only [Res.ok.injEq] at h; subst h
+      rw [wf_set, allTy_iff] at hwc
+      refine ⟨?_, by simp [typeOf, updateTy, isKey_typeOf hc.2, isKey_simple hc.2]⟩
+      rw [wf_set, allTy_iff]
+      intro z hz
+      cases bb with
+      | true =>
+        simp only [if_true] at hz
+        rcases mem_insertKey' keyLt hz with rfl | hz
+        · exact ⟨hwa, isKey_typeOf hc.2⟩
+        · exact hwc z hz
+      | false =>
+        simp only [Bool.false_eq_true, if_false] at hz
+        exact hwc z (mem_eraseKey' keyLt hz)
+    · cases h
+  · -- some y
+    rename_i y
+    cases c <;> first | (simp [Spec.updateV] at h; done) | skip
+    rename_i k v items
+    simp only [Spec.updateV] at h
+    split at h
+    · rename_i hc
+      simp only [Bool.and_eq_true, beq_iff_eq] at hc
+      simp only [Res.ok.injEq] at h; subst h
+      rw [wf_map] at hwc
+      have hty := kvs_typed hwc
+      have hwy : WF y := (wf_some y).mp hwb
+      refine ⟨?_, by simp [typeOf, updateTy, isKey_typeOf hc.1.2, isKey_simple hc.1.2, hc.2]⟩
+      rw [wf_map]
+      apply unkvs_typed
+      intro z hz
+      rcases mem_insertKV' keyLt hz with rfl | hz | ⟨e, he, rfl⟩
+      · exact ⟨⟨hwa, isKey_typeOf hc.1.2⟩, ⟨hwy, hc.2⟩⟩
+      · exact hty z hz
+      · exact ⟨(hty e he).1, ⟨hwy, hc.2⟩⟩
+    · cases h
+  · -- none
+    rename_i v'
+    cases c <;> first | (simp [Spec.updateV] at h; done) | skip
+    rename_i k v items
+    simp only [Spec.updateV] at h
+    split at h
+    · rename_i hc
+      simp only [Bool.and_eq_true, beq_iff_eq] at hc
+      simp only [Res.ok.injEq] at h; subst h
+      rw [wf_map] at hwc
+      have hty := kvs_typed hwc
+      refine ⟨?_, by simp [typeOf, updateTy, isKey_typeOf hc.1.2, isKey_simple hc.1.2, hc.2]⟩
+      rw [wf_map]
+      apply unkvs_typed
+      intro z hz
+      exact hty z (mem_eraseKV' keyLt hz)
+    · cases h
+
+end Interp
+
 namespace Interp
 open Typing
 
@@ -499,6 +713,82 @@ theorem sound_SUB_MUTEZ (hev : Spec.step env .SUB_MUTEZ st = .ok st') :
     StackWF st' ∧ Typing.step .SUB_MUTEZ (st.map typeOf) = some (.ok (st'.map typeOf)) :=
   sound_binop env st st' hw .SUB_MUTEZ Spec.subMutezV subMutezTy (fun _ _ _ => rfl) rfl (fun a => by cases a <;> rfl)
     (fun _ _ _ => rfl) subMutezV_sound hev
+
+theorem sound_MEM (hev : Spec.step env .MEM st = .ok st') :
+    StackWF st' ∧ Typing.step .MEM (st.map typeOf) = some (.ok (st'.map typeOf)) :=
+  sound_binop env st st' hw .MEM Spec.memV memTy (fun _ _ _ => rfl) rfl (fun a => by cases a <;> rfl) (fun _ _ _ => rfl)
+    memV_sound hev
+theorem sound_GET (hev : Spec.step env .GET st = .ok st') :
+    StackWF st' ∧ Typing.step .GET (st.map typeOf) = some (.ok (st'.map typeOf)) :=
+  sound_binop env st st' hw .GET Spec.getV getTy (fun _ _ _ => rfl) rfl (fun a => by cases a <;> rfl) (fun _ _ _ => rfl)
+    getV_sound hev
+
+theorem sound_UPDATE (hev : Spec.step env .UPDATE st = .ok st') :
+    StackWF st' ∧ Typing.step .UPDATE (st.map typeOf) = some (.ok (st'.map typeOf)) := by
+  rcases st with _ | ⟨a, _ | ⟨b, _ | ⟨c, st⟩⟩⟩
+  · simp [Spec.step] at hev
+  · cases a <;> simp [Spec.step] at hev
+  · cases a <;> simp [Spec.step] at hev
+  rw [stackWF_cons, stackWF_cons, stackWF_cons] at hw
+  have hs : Spec.step env .UPDATE (a :: b :: c :: st) = (Spec.updateV a b c).bind fun r => .ok (r :: st) := rfl
+  rw [hs] at hev
+  cases hq : Spec.updateV a b c with
+  | err => simp [hq] at hev
+  | failed v => simp [hq] at hev
+  | ok r =>
+    simp only [hq, rbind_ok, Res.ok.injEq] at hev
+    subst hev
+    obtain ⟨h1, h2⟩ := updateV_sound a b c r hw.1 hw.2.1 hw.2.2.1 hq
+    have ht : Typing.step .UPDATE (typeOf a :: typeOf b :: typeOf c :: st.map typeOf)
+        = (updateTy (typeOf a) (typeOf b) (typeOf c)).map fun t => .ok (t :: st.map typeOf) := rfl
+    simp [ht, h2, stackWF_cons, h1, hw.2.2.2]
+
+theorem sound_GET_AND_UPDATE (hev : Spec.step env .GET_AND_UPDATE st = .ok st') :
+    StackWF st' ∧ Typing.step .GET_AND_UPDATE (st.map typeOf) = some (.ok (st'.map typeOf)) := by
+  rcases st with _ | ⟨a, _ | ⟨b, _ | ⟨c, st⟩⟩⟩
+  · simp [Spec.step] at hev
+  · cases a <;> simp [Spec.step] at hev
+  · cases a <;> simp [Spec.step] at hev
+  rw [stackWF_cons, stackWF_cons, stackWF_cons] at hw
+  have hs : Spec.step env .GET_AND_UPDATE (a :: b :: c :: st)
+      = (Spec.getAndUpdateV a b c).bind fun r => .ok (r.1 :: r.2 :: st) := rfl
+  rw [hs] at hev
+  unfold Spec.getAndUpdateV at hev
+  cases hg : Spec.getV a c with
+  | err => simp [hg] at hev
+  | failed v => simp [hg] at hev
+  | ok old =>
+    cases hu : Spec.updateV a b c with
+    | err => simp [hg, hu] at hev
+    | failed v => simp [hg, hu] at hev
+    | ok m' =>
+      simp only [hg, hu, rbind_ok, Res.ok.injEq] at hev
+      subst hev
+      obtain ⟨g1, g2⟩ := getV_sound a c old hw.1 hw.2.2.1 hg
+      obtain ⟨u1, u2⟩ := updateV_sound a b c m' hw.1 hw.2.1 hw.2.2.1 hu
+      have ht : Typing.step .GET_AND_UPDATE (typeOf a :: typeOf b :: typeOf c :: st.map typeOf)
+          = (updateTy (typeOf a) (typeOf b) (typeOf c)).bind fun t =>
+              (getTy (typeOf a) t).map fun o => .ok (o :: t :: st.map typeOf) := rfl
+      -- the updated map has the type of the old one
+      have hsame : typeOf m' = typeOf c := by
+        cases c <;> first | (simp [Spec.getV] at hg; done) | skip
+        cases b <;> first | (simp [Spec.updateV] at hu; done) | skip
+        all_goals
+          simp only [Spec.updateV] at hu
+          split at hu
+          · simp only [Res.ok.injEq] at hu; subst hu; rfl
+          · cases hu
+      refine ⟨by simp [stackWF_cons, g1, u1, hw.2.2.2], ?_⟩
+      simp only [List.map_cons, ht, u2, Option.bind_some, hsame, g2, Option.map_some]
+
+theorem sound_EMPTY_SET (t : Ty) (hev : Spec.step env (.EMPTY_SET t) st = .ok st') :
+    StackWF st' ∧ Typing.step (.EMPTY_SET t) (st.map typeOf) = some (.ok (st'.map typeOf)) := by
+  simp only [Spec.step] at hev
+  split at hev
+  · rename_i hc
+    simp only [Res.ok.injEq] at hev; subst hev
+    simp [Typing.step, hc, typeOf, stackWF_cons, hw, wf_set, allTy_nil]
+  · cases hev
 
 theorem sound_CONCAT (hev : Spec.step env .CONCAT st = .ok st') :
     StackWF st' ∧ Typing.step .CONCAT (st.map typeOf) = some (.ok (st'.map typeOf)) := by
@@ -796,6 +1086,11 @@ theorem step_sound (env : Env) (i : Instr) (st st' : List Val) (hw : StackWF st)
   case LSL => exact sound_LSL env st st' hw hev
   case LSR => exact sound_LSR env st st' hw hev
   case SUB_MUTEZ => exact sound_SUB_MUTEZ env st st' hw hev
+  case EMPTY_SET t => exact sound_EMPTY_SET env st st' hw t hev
+  case MEM => exact sound_MEM env st st' hw hev
+  case GET => exact sound_GET env st st' hw hev
+  case UPDATE => exact sound_UPDATE env st st' hw hev
+  case GET_AND_UPDATE => exact sound_GET_AND_UPDATE env st st' hw hev
   case CONCAT => exact sound_CONCAT env st st' hw hev
   case SLICE => exact sound_SLICE env st st' hw hev
   case AMOUNT => exact sound_AMOUNT env st st' hw hev
